@@ -184,6 +184,29 @@ def check_formula(term, rec, tag, keyname, case, forms):
                     fail('hessian-not-symmetric', form, None, hs)
                 elif not all(_cmp_mat(a, b) for a, b in zip(bs, Bs)):
                     fail('bhhh-not-outer-product-of-gradients', form, Bs, bs)
+            elif form == 'disagg_named':
+                res = guard(form, lambda: expr.get_value_and_derivatives(
+                    betas=betas_arg, database=db, gradient=True, hessian=True, bhhh=True, aggregation=False,
+                    prepare_ids=True, named_results=True))
+                if res is None:
+                    continue
+                mp = dict(res.mapping)
+                if sorted(mp, key=lambda k: mp[k]) != free or sorted(mp.values()) != list(range(n)):
+                    fail('named-mapping-not-sorted-free-names', form, free, mp)
+                    continue
+                fs = [float(v) for v in res.functions]
+                gs = [[float(g[nm]) for nm in free] for g in res.gradients]
+                hs = [[[float(h[a][b]) for b in free] for a in free] for h in res.hessians]
+                bs = [[[float(h[a][b]) for b in free] for a in free] for h in res.bhhhs]
+                rec.case(key, (tag, label, form, [round(v, 8) for v in fs]), outcome='ok')
+                if not _cmp_vec(fs, F):
+                    fail('value', form, F, fs)
+                elif not all(_cmp_vec(a, b) for a, b in zip(gs, Gs)):
+                    fail('gradient', form, Gs, gs)
+                elif not all(_cmp_mat(a, b) for a, b in zip(hs, Hs)):
+                    fail('hessian', form, Hs, hs)
+                elif not all(_cmp_mat(a, b) for a, b in zip(bs, Bs)):
+                    fail('bhhh-not-outer-product-of-gradients', form, Bs, bs)
             elif form in ('agg', 'agg_named'):
                 named = form == 'agg_named'
                 res = guard(form, lambda: expr.get_value_and_derivatives(
@@ -330,7 +353,7 @@ def _matches_pow2_quirk(term, free, rows, full, observed, clause, form):
             obs = observed[2]
         if isinstance(obs, str):
             return _parse_and_cmp(obs, agg)
-        if form == 'disagg':
+        if form in ('disagg', 'disagg_named'):
             return all(_cmp_mat(a, b) for a, b in zip(obs, Hq))
         if form in ('biogeme_scaled',):
             return _cmp_mat(obs, [[x / len(rows) for x in r_] for r_ in agg])
@@ -346,7 +369,7 @@ def _parse_and_cmp(obs, agg):
     return len(nums) == len(flat) and all(dclose(a, b) for a, b in zip(nums, flat))
 
 
-ALL_FORMS = ['disagg', 'agg', 'agg_named', 'flags_g', 'flags_gb', 'flags_gh', 'create_function', 'objective',
+ALL_FORMS = ['disagg', 'disagg_named', 'agg', 'agg_named', 'flags_g', 'flags_gb', 'flags_gh', 'create_function', 'objective',
              'biogeme', 'biogeme_scaled']
 
 
@@ -390,7 +413,7 @@ def tasks(tier, seed):
 def forms_for(rot, tier):
     if rot == 0:
         return ALL_FORMS
-    return ['disagg', 'agg', 'agg_named'] if tier == 'quick' else ALL_FORMS
+    return ['disagg', 'disagg_named', 'agg', 'agg_named'] if tier == 'quick' else ALL_FORMS
 
 
 def run_task(task):
